@@ -208,7 +208,7 @@ h("ki5d_len_step", SYM, SP, ["C03", "C02", "C04"], kernel="KI5d", expect_s=60, t
   functions=["State::dispatch (mode Len)", "State::len_and_friends (modes Len, Lit, LenExt, Dist)", "inffixed_tbl::LENFIX"],
   bounds="fixed tables, 0..=9 primed bits of any value, no input, output capacity <= 3 with 0..=cap already written",
   assumptions=STEP_ASSUME + ["oracle: RFC 1951 3.2.5/3.2.6 reference decoder in the harness"])
-h("ki5d_dist_step_dispatch", SYM, SP, ["C03", "C02", "C04"], kernel="KI5d", expect_s=350, timeout=1800, weight=3, mem_gb=28, rss_gb=16,
+h("ki5d_dist_step_dispatch", SYM, SP, ["C03", "C02", "C04"], kernel="KI5d", expect_s=350, timeout=1800, weight=3, mem_gb=34, rss_gb=27,
   unwindset=DISPATCH_US(5),
   functions=["State::dispatch (modes LenExt, Dist, DistExt, Match)", "inffixed_tbl::DISTFIX"],
   bounds="start in LenExt/Dist/DistExt with any carried registers, 0..=23 primed bits, no input, writer full (step ends in Match before any copy)",
@@ -393,6 +393,10 @@ h("kd10_reset_equals_fresh", E, EP, ["C14", "C10", "C01", "C06"], kernel="KD10",
 h("ka2_deflate_copy_alloc_failure", E, EP, ["C18", "C14"], kernel="KA2", expect_s=10, timeout=600,
   functions=["deflate::copy (failure path)", "Allocator::allocate_slice_raw", "DeflateAllocOffsets::new"],
   bounds="typed source stream, allocator that fails its only request; counts zalloc/zfree calls")
+h("kd10_params_leaving_level0_settles_the_hash_debt", D + "/kd10_entry.rs", "deflate::verif_kani::kd10_entry", ["C06", "C16", "C01"], kernel="KD10", expect_s=60, timeout=900, weight=2, mem_gb=16,
+  functions=["deflate::params (hash-table bookkeeping at a level change)", "lm_set_level"],
+  bounds="first call after init/reset (no flush precedes the switch); any current level, any new level 0..=9, matches in 0..=2, one dirty hash entry at a fixed index",
+  assumptions=["slide_hash -> counting stub (decided by kd9_slide_hash_chain)", "<[u16]>::fill -> zeroing stub"])
 h("kd10_params_tune", E, EP, ["C06", "C16"], kernel="KD10", expect_s=60, timeout=900,
   functions=["deflate::params", "deflate::tune", "lm_set_level", "DeflateStream::pending"],
   bounds="every i32 level, 5 strategies, any previous level 0..=9, any last_flush/matches; tune with four arbitrary usize values",
@@ -407,6 +411,9 @@ h("ka1_alloc_shim", A, "allocate::verif_kani", ["C18"], kernel="KA1", expect_s=1
   functions=["Allocator::allocate_layout", "Allocator::deallocate"],
   bounds="user zalloc returning base+k for every misalignment k < 64 out of a canaried arena (or NULL), size 1..=64, align 2^0..2^6",
   assumptions=["zalloc contract: returns NULL or a block of at least items*size bytes"])
+h("ka1_default_allocator_refuses_oversized_requests", "zlib-rs/src/allocate/verif_kani.rs", "allocate::verif_kani", ["C18", "C02"], kernel="KA1", expect_s=20, timeout=600,
+  functions=["Allocator::allocate_layout / allocate_layout_zeroed (fast path of the default Rust allocator)", "allocate_slice_raw", "allocate_zeroed_buffer"],
+  bounds="any length in (2^32, isize::MAX - 64]", assumptions=["zalloc_rust / zalloc_rust_calloc -> panic stub (must not be reached)"])
 h("ka1_alloc_overflow_and_null", A, "allocate::verif_kani", ["C18", "C06"], kernel="KA1", expect_s=5, timeout=300,
   functions=["Allocator::allocate_slice_raw", "Allocator::allocate_layout", "Allocator::deallocate"],
   bounds="every length above u32::MAX - 9 (request no longer fits unsigned int); NULL pointer deallocation")
@@ -513,6 +520,11 @@ for _w in (100, 88, 87):
              "(600 <= 512 + written for 100 and 88: the case the loop used to accept; 87: one short of it)" % _w,
       assumptions=["fully concrete input: the verdict of the fast loop is the subject; every CBMC safety check along the path applies"])
 
+h("kb1_back_output_refused", I + "/kb1_back.rs", "inflate::verif_kani::kb1_back", ["C19"], kernel="KB1", expect_s=200, timeout=1800, weight=2, mem_gb=16,
+  unwindset=KB1_US(14, "back_wrapped_instance", inner=3)[:-1],
+  functions=["inflate::infback::back (window-full flush `room!`, final flush, output-callback protocol)"],
+  bounds="16-byte window (reduced instance), concrete stream: stored block of 16 bytes, then literal + length 3 at distance 1; the output callback refuses its first call, its second call, or none",
+  assumptions=["inflate_table stubbed by assume(false)", "inflate_fast_back behind a checked stub", "one input slice"])
 # (kb1_fast_back_straddling_overlap: did not finish in 900 s even on a nearly concrete instance; not registered, see the comment in infback/verif_kani.rs)
 
 # ---------------------------------------------------------------- checksums (C09)
@@ -654,7 +666,7 @@ h("ki8_reset_forgets_header_window_bits", I + "/ki8_entry.rs", "inflate::verif_k
   functions=["State::dispatch (mode Head with windowBits 0)", "inflate::reset", "inflate::reset_keep"],
   bounds="zlib wrapper, windowBits 0 at init, any valid zlib header without FDICT (every CINFO), then inflateReset; then an explicit size and another reset",
   assumptions=STEP_ASSUME)
-h("ki8_copy_refuses_a_borrowed_window", I + "/ki8_entry.rs", "inflate::verif_kani::ki8_entry", ["C02", "C14", "C16"], kernel="KI8", expect_s=60, timeout=900,
+h("ki8_copy_refuses_a_borrowed_window", I + "/ki8_entry.rs", "inflate::verif_kani::ki8_entry", ["C02", "C14", "C16", "C18"], kernel="KI8", expect_s=60, timeout=900,
   functions=["inflate::copy (argument/state checks before the allocation)", "Window::clone_to"],
   bounds="source stream as inflateBackInit leaves it (512-byte caller window), counting allocator that would succeed")
 h("ki8_sync_then_inflate", I + "/ki8_entry.rs", "inflate::verif_kani::ki8_entry", ["C15", "C16"], kernel="KI8", expect_s=60, timeout=900,
@@ -713,7 +725,7 @@ QUICK = {
     "C05": ["kd3_compress_block_general_two_symbols", "kd4_build_bl_tree_announces_every_used_length", "kd6_stored_pending_block_fits_len16", "kd4_gen_codes_n5", "kd4_build_tree_bl_k2", "kd4_build_tree_bl_k3", "kd4_build_tree_bl_single", "kd5_send_tree_n4", "kd5_send_tree_z11_n13", "kd1_bitwriter_pack", "kd1_emitters_one_step", "kd1_bitwriter_full_register", "kd10_prime",
             "kd2_static_encode_matches_rfc", "kd2_static_ltree_is_rfc_fixed_code", "kd7_zlib_wrapper", "kd8_quick_finish_n1",
             "kd10_set_dictionary_protocol"],
-    "C06": ["kd10_prime_room0", "kd10_prime_room7", "kd10_prime_room8", "kd7_refused_call_without_space_is_harmless", "kd7_starved_flush_is_completed_by_the_next_call", "kd7_zlib_wrapper", "kd7_zlib_starved_finish", "kd10_prime", "kd10_params_tune", "kd10_set_header",
+    "C06": ["kd10_params_leaving_level0_settles_the_hash_debt", "kd10_prime_room0", "kd10_prime_room7", "kd10_prime_room8", "kd7_refused_call_without_space_is_harmless", "kd7_starved_flush_is_completed_by_the_next_call", "kd7_zlib_wrapper", "kd7_zlib_starved_finish", "kd10_prime", "kd10_params_tune", "kd10_set_header",
             "kd8_quick_finish_n1", "ka1_alloc_overflow_and_null"],
     "C07": ["kd11_bound_counts_every_gzip_header_field", "kd8_quick_finish_n1", "kd8_quick_finish_n3", "kd7_gzip_header_none_s1"],  # kd6_stored_one_call (580 s, 18 GB): thorough tier
     "C08": ["ki3_window_extend_checksum_order", "ki5e_check_zlib", "ki5e_check_gzip", "ki5e_length_gzip", "ki5b_hcrc", "ki5b_fixed_part", "ki5b_name",
@@ -730,9 +742,9 @@ QUICK = {
             "ki8_sync_then_inflate", "kd7_zlib_wrapper"],
     "C16": ["ki8_reset_keep_forgets_the_stream", "kd7_flush_that_fills_the_buffer_is_repeated", "kd7_finish_after_prime_on_a_finished_stream", "ki8_small_entry_points", "ki8_sync", "ki8_reset_equals_fresh", "ki5a_set_dictionary", "kd10_prime", "kd10_params_tune",
             "kd10_set_header", "kd10_set_dictionary_protocol", "ki7_inflate_terminal", "ki5e_terminal_modes"],
-    "C18": ["ka3_default_allocator_fallback_is_a_matched_pair", "ka1_alloc_shim", "ka1_alloc_overflow_and_null", "ka2_deflate_copy_alloc_failure", "ka2_deflate_end_releases_once",
+    "C18": ["ki8_copy_refuses_a_borrowed_window", "ka1_default_allocator_refuses_oversized_requests", "ka3_default_allocator_fallback_is_a_matched_pair", "ka1_alloc_shim", "ka1_alloc_overflow_and_null", "ka2_deflate_copy_alloc_failure", "ka2_deflate_end_releases_once",
             "ka2_inflate_end_releases_once"],
-    "C19": ["kb1_fast_back_beyond_window_w100", "kb1_back_fast_toofar_s1", "kb1_back_lit1_d0", "kb1_back_lit1_d4", "kb1_back_lit1_d16", "kb1_back_lit1_d29", "kb1_back_lit1_d30",
+    "C19": ["kb1_back_output_refused", "kb1_fast_back_beyond_window_w100", "kb1_back_fast_toofar_s1", "kb1_back_lit1_d0", "kb1_back_lit1_d4", "kb1_back_lit1_d16", "kb1_back_lit1_d29", "kb1_back_lit1_d30",
             "kb1_back_lit9_d5", "ki2_copy_match_back"],
     "C20": ["ki5b_fixed_part", "ki5b_extra", "ki5b_name_entry_length", "ki5b_comment_entry_length", "ki5b_name", "ki5b_comment", "ki5b_hcrc", "kd10_set_header", "kd7_flush_bytes_unit",
             "kd7_gzip_resume_extra", "kd7_gzip_resume_name", "kd7_gzip_resume_comment", "kd7_gzip_hcrc_room1_out1", "kd7_gzip_hcrc_room0_out1", "kd7_gzip_hcrc_room3_out40"],
